@@ -65,6 +65,11 @@ def call(I, name, args, e):
         if sz is None: sz = I.size_of_ty(e['generics'][0])
         if sz is None: return ('call', 'size_of', ('a', I.resolve_ty(e['generics'][0])))
         return C(sz)
+    if n in ('core::char::convert::<impl core::convert::From<u8> for char>::from', 'core::char::methods::<impl char>::from_u32_unchecked') and is_term(a0):
+        return a0
+    if n in ('core::str::<impl str>::is_ascii', 'core::slice::ascii::<impl [u8]>::is_ascii') and isinstance(a0, SeqV):
+        c_ = ('call', 'is_ascii', ('a', a0.name or '?')); sym.CALL_RANGE[c_] = (0, 1)
+        return cmp('ne', c_, ZERO)
     if n == 'core::mem::size_of_val':
         t_ = strip_refs(norm_ty(I.resolve_ty(e['args'][0].get('ty', ''))))
         sz = I.size_of_ty(t_)
